@@ -51,6 +51,15 @@ func (e *Exec) doCall(ins ssa.Instruction, c *ssa.CallCommon, st *State) Value {
 			}
 		}
 		e.safe("nil", st, Ne(recv.ID, ConstI(0, Ref)), ins.Pos())
+		if pv, ok := e.devirt(recv, c.Value.Type()); ok {
+			ms := e.P.Prog.MethodSets.MethodSet(types.NewPointer(pv.T))
+			if sel := ms.Lookup(c.Method.Pkg(), c.Method.Name()); sel != nil {
+				if fn := e.P.Prog.MethodValue(sel); fn != nil {
+					e.ctx.assumes["interface "+types.TypeString(c.Value.Type(), nil)+" has the single implementation *"+typeName(pv.T)]++
+					return e.staticCall(ins, fn, append([]Value{pv}, args...), nil, st)
+				}
+			}
+		}
 		key := ifaceMethodKey(c)
 		if fc := e.C.Funcs[key]; fc != nil {
 			fc.Used = true
@@ -110,25 +119,30 @@ func (e *Exec) invGet(st *State, id *Term) *Term {
 }
 
 func (e *Exec) invBump(st *State, id *Term) {
-	cur := e.invGet(st, id)
-	e.ctx.write(st, invFam, id, Add(cur, ConstI(1, I64)))
+	e.invBumpIf(st, id, True)
 }
 
-// handOn: a function value is passed where the callee promises exactly-once completion.
+func (e *Exec) invBumpIf(st *State, id *Term, cond *Term) {
+	cur := e.invGet(st, id)
+	e.ctx.write(st, invFam, id, Add(cur, Ite(cond, ConstI(1, I64), ConstI(0, I64))))
+}
+
+// handOnIDs: a function value is passed where the callee promises exactly-once completion.
 // The value counts as completed once; if it is a closure whose contract completes one of its
-// captured function values exactly once per invocation, so does that captured value.
-func (e *Exec) handOn(st *State, v Value, depth int) {
+// captured function values exactly once per invocation, so does that captured value. The
+// identities are computed in the state before the call.
+func (e *Exec) handOnIDs(pre *State, v Value, depth int) []*Term {
 	fv, ok := v.(FuncV)
 	if !ok || depth > 4 {
-		return
+		return nil
 	}
-	e.invBump(st, fv.ID)
+	ids := []*Term{fv.ID}
 	if fv.Static == nil {
-		return
+		return ids
 	}
 	wfc := e.C.lookup(funcKey(fv.Static))
 	if wfc == nil {
-		return
+		return ids
 	}
 	for _, cs := range wfc.Consumes {
 		if cs.Unless != nil {
@@ -137,11 +151,12 @@ func (e *Exec) handOn(st *State, v Value, depth int) {
 		for i, free := range fv.Static.FreeVars {
 			if free.Name() == cs.Name && i < len(fv.Bindings) {
 				if pv, ok := fv.Bindings[i].(PtrV); ok {
-					e.handOn(st, e.loadAt(st, pv), depth+1)
+					ids = append(ids, e.handOnIDs(pre, e.loadAt(pre, pv), depth+1)...)
 				}
 			}
 		}
 	}
+	return ids
 }
 
 // funcValueCall: call through a function value whose target is unknown.
@@ -302,7 +317,7 @@ func (e *Exec) inlineCall(fn *ssa.Function, args []Value, st *State, spec bool) 
 // inlineCallB executes fn's body in place. st is updated to the merged return state.
 func (e *Exec) inlineCallB(fn *ssa.Function, args []Value, bindings []Value, st *State, spec bool) []Value {
 	ch := &Exec{P: e.P, C: e.C, fn: fn, ctx: e.ctx, entry: e.entry, vals: map[ssa.Value]Value{}, params: map[string]Value{}, lets: map[string]Value{},
-		parent: e, depth: e.depth + 1, topName: e.topName, counts: e.counts, callOrd: map[string]int{}, specMode: spec || e.specMode,
+		parent: e, depth: e.depth + 1, topName: e.topName, counts: e.counts, defSeen: map[ssa.Value]bool{}, finalCells: map[ssa.Value]Value{}, callOrd: map[string]int{}, specMode: spec || e.specMode,
 		prefix: e.prefix + "in:" + shortKey(funcKey(fn)) + "/"}
 	ch.fc = e.C.lookup(funcKey(fn))
 	if len(args) != len(fn.Params) {
@@ -374,11 +389,28 @@ func (e *Exec) contractCall(ins ssa.Instruction, key string, fc *FuncContract, s
 			e.ctx.assume(Imp(st.pc, g))
 		}
 	}
-	// hand-off accounting for parameters the callee completes exactly once
+	// hand-off accounting for parameters the callee completes exactly once: the callee either
+	// completed the function value (done) or deferred it (its "unless" condition holds on return)
+	type handoff struct {
+		cs   ConsumeSpec
+		ids  []*Term
+		done *Term
+	}
+	var handoffs []handoff
+	env.siteInvoked = map[string]*Term{}
 	for _, cs := range fc.Consumes {
 		for i, n := range names {
 			if n == cs.Name && i < len(args) {
-				e.handOn(st, args[i], 0)
+				done := True
+				if cs.Unless != nil {
+					done = Fresh("done."+cs.Name, BoolSort)
+				}
+				av := args[i]
+				if pv, isCell := av.(PtrV); isCell && fn != nil && i >= len(fn.Params) {
+					av = e.loadAt(pre, pv) // free variable: the cell's content is the function value
+				}
+				handoffs = append(handoffs, handoff{cs, e.handOnIDs(pre, av, 0), done})
+				env.siteInvoked[cs.Name] = Ite(done, ConstI(1, I64), ConstI(0, I64))
 			}
 		}
 	}
@@ -424,6 +456,16 @@ func (e *Exec) contractCall(ins ssa.Instruction, key string, fc *FuncContract, s
 	}
 	if fc.Trusted {
 		e.ctx.assumes["trusted contract of "+shortKey(key)]++
+	}
+	for _, h := range handoffs {
+		if h.cs.Unless != nil {
+			env.polarity = polAssume
+			deferred := env.withNeg(func() *Term { return env.evalBool(h.cs.Unless) })
+			e.ctx.assume(Imp(st.pc, Or(h.done, deferred)))
+		}
+		for _, id := range h.ids {
+			e.invBumpIf(st, id, h.done)
+		}
 	}
 	for _, cl := range fc.Ensures {
 		env.polarity = polAssume
@@ -660,9 +702,10 @@ func (e *Exec) loopWriteSet(li *loopInfo) *WriteSet {
 // siteAsserts: "assert call <pattern>: expr" clauses of the current function's contract.
 func (e *Exec) siteAsserts(ins ssa.Instruction, callee string, args []Value, st *State, when string, res Value) {
 	root := e.root()
-	if root.fc == nil || e.parent != nil || e.specMode {
+	if root.fc == nil || e.specMode {
 		return
 	}
+	inlined := e.parent != nil
 	for ai, sa := range root.fc.Asserts {
 		if sa.When != when {
 			continue
@@ -695,6 +738,11 @@ func (e *Exec) siteAsserts(ins ssa.Instruction, callee string, args []Value, st 
 		env := e.newEnv(st, e.entry)
 		env.args = args
 		env.block = ins.Block()
+		if inlined {
+			// the clause belongs to the function under verification: its names, entry values
+			env = root.newEnv(st, root.entry)
+			env.args = args
+		}
 		switch r := res.(type) {
 		case nil:
 		case TupleV:
@@ -749,8 +797,17 @@ func (e *Exec) lookupLocal(name string, b *ssa.BasicBlock, st *State) (Value, bo
 		if found != nil {
 			v := e.val(found)
 			if isAddr {
+				if e.cellIsFinal(found) {
+					if cv, ok := e.finalCells[found]; ok {
+						return cv, true
+					}
+				}
 				if p, ok := v.(PtrV); ok {
-					return e.loadAt(st, p), true
+					cv := e.loadAt(st, p)
+					if e.cellIsFinal(found) {
+						e.finalCells[found] = cv
+					}
+					return cv, true
 				}
 			}
 			return v, true
@@ -1097,4 +1154,33 @@ func debugName(ins ssa.Instruction, v ssa.Value) string {
 		}
 	}
 	return ""
+}
+
+// devirt: an interface declared to have a single in-repo implementation (pointer receiver)
+// is viewed as a pointer to that struct.
+func (e *Exec) devirt(iv IfaceV, t types.Type) (PtrV, bool) {
+	if t == nil {
+		t = iv.T
+	}
+	n, ok := t.(*types.Named)
+	if !ok || n.Obj().Pkg() == nil {
+		return PtrV{}, false
+	}
+	target, ok := e.C.Devirt[n.Obj().Pkg().Path()+"."+n.Obj().Name()]
+	if !ok {
+		return PtrV{}, false
+	}
+	dot := strings.LastIndex(target, ".")
+	sp := e.P.SPkgs[target[:dot]]
+	if sp == nil {
+		return PtrV{}, false
+	}
+	obj := sp.Pkg.Scope().Lookup(target[dot+1:])
+	if obj == nil {
+		return PtrV{}, false
+	}
+	ref := App("ifaceptr", Ref, iv.ID)
+	// the wrapped pointer is nil exactly when the interface is
+	e.ctx.assume(And(Eq(Eq(ref, ConstI(0, Ref)), Eq(iv.ID, ConstI(0, Ref))), Le(ConstI(0, Ref), ref), Lt(ref, ConstI(staticBase, Ref))))
+	return PtrV{Kind: pObj, Addr: ref, T: obj.Type(), FirstClass: true}, true
 }
